@@ -36,7 +36,13 @@ def _get_param_by_name(*, sig, local_attrs, additional_classes):
 
     params_by_name = []
     found_last_positional = False
+    pending_positional_only = False
     for p, v in sig.parameters.items():
+        if v.kind == inspect.Parameter.POSITIONAL_ONLY:
+            pending_positional_only = True
+        elif pending_positional_only:
+            params_by_name.append(("/", ""))
+            pending_positional_only = False
         default = (
             "" if v.default == inspect._empty else f" = {_convert_default(v.default)}"
         )
@@ -50,6 +56,8 @@ def _get_param_by_name(*, sig, local_attrs, additional_classes):
             found_last_positional = True
         p_name = f"{get_optional_globe(v)}{p}"
         params_by_name.append((p_name, type_annotation))
+    if pending_positional_only:
+        params_by_name.append(("/", ""))
 
     return params_by_name
 
